@@ -66,15 +66,18 @@ func RefRel(t, r string) *openfgav1.RelationReference {
 }
 
 type mgen struct {
-	r   *rand.Rand
-	opt ModelOpt
+	r         *rand.Rand
+	opt       ModelOpt
+	tuplesets []string // tupleset relations every object type has ("p", sometimes also "q")
 }
+
+func (g *mgen) tupleset() string { return g.tuplesets[g.r.Intn(len(g.tuplesets))] }
 
 // Model generates one model. Constraints (DESIGN §7-b): at most one `this` and no two identical leaves under
 // one operator; a `this` always has at least one restriction; tupleset relations are direct and type-only.
 func Model(r *rand.Rand, opt ModelOpt) *openfgav1.AuthorizationModel {
 	opt.defaults()
-	g := &mgen{r, opt}
+	g := &mgen{r: r, opt: opt, tuplesets: []string{"p"}}
 	nTerm := 1 + r.Intn(opt.MaxTerm)
 	nObj := 1 + r.Intn(opt.MaxObj)
 	var terms, objs []string
@@ -93,8 +96,20 @@ func Model(r *rand.Rand, opt ModelOpt) *openfgav1.AuthorizationModel {
 	for i := 0; i < nRel; i++ {
 		relNames = append(relNames, fmt.Sprintf("r%d", i))
 	}
+	if r.Intn(3) == 0 {
+		g.tuplesets = []string{"p", "q"} // a second tupleset with its own parent types
+	}
 	for _, o := range objs {
 		td := &openfgav1.TypeDefinition{Type: o, Relations: map[string]*openfgav1.Userset{}, Metadata: &openfgav1.Metadata{Relations: map[string]*openfgav1.RelationMetadata{}}}
+		if len(g.tuplesets) > 1 {
+			var qrefs []*openfgav1.RelationReference
+			qperm := r.Perm(len(objs))
+			for i := 0; i < 1+r.Intn(2) && i < len(objs); i++ {
+				qrefs = append(qrefs, RefType(objs[qperm[i]]))
+			}
+			td.Relations["q"] = This()
+			td.Metadata.Relations["q"] = &openfgav1.RelationMetadata{DirectlyRelatedUserTypes: qrefs}
+		}
 		var prefs []*openfgav1.RelationReference
 		np := 1 + r.Intn(3)
 		perm := r.Perm(len(objs))
@@ -193,7 +208,7 @@ func (g *mgen) children(n, depth int, rels []string, hasThis *bool, self string)
 		ch = append(ch, c)
 	}
 	for len(ch) < 2 {
-		ch = append(ch, TTU(rels[len(ch)%len(rels)], "p"))
+		ch = append(ch, TTU(rels[len(ch)%len(rels)], g.tuplesets[len(ch)%len(g.tuplesets)]))
 	}
 	return ch
 }
@@ -226,7 +241,7 @@ func (g *mgen) userset(depth int, rels []string, hasThis *bool, self string) *op
 		}
 		return Computed(rel)
 	case k < 6:
-		return TTU(rels[r.Intn(len(rels))], "p")
+		return TTU(rels[r.Intn(len(rels))], g.tupleset())
 	case k < 8 || (k < 10 && r.Intn(3) > 0):
 		return Union(g.children(2+r.Intn(2), depth+1, rels, hasThis, self)...)
 	case k < 9:
